@@ -84,6 +84,12 @@ class SObj:
         return '<obj %s>' % (s.cls,)
 
 
+class LocalFn:
+    """closure of a nested def / lambda"""
+    def __init__(s, node, env):
+        s.node, s.env = node, env
+
+
 class RepoFn:
     def __init__(s, modkey, qual):
         s.modkey = modkey
@@ -229,6 +235,11 @@ class Interp:
     def e_Name(s, n, env):
         if n.id in env:
             return env[n.id]
+        c = env.get('__closure__')
+        while c is not None:              # enclosing function scopes (nested def / lambda)
+            if n.id in c:
+                return c[n.id]
+            c = c.get('__closure__')
         g = env['__globals__']
         if n.id in g:
             return g[n.id]
@@ -554,6 +565,9 @@ class Interp:
     def call_value(s, f, args, kw):
         if isinstance(f, RepoFn):
             return s.call(f.modkey, f.qual, args, kw)
+        if isinstance(f, LocalFn):
+            return s.invoke(f.node, f.node.name if hasattr(f.node, 'name') else '<lambda>', args, kw,
+                            {'__globals__': f.env['__globals__'], '__closure__': f.env}, f.env)
         if isinstance(f, RepoClass):
             return s.P.instantiate(s, f, args, kw)
         if isinstance(f, BoundMethod):
@@ -568,6 +582,14 @@ class Interp:
     def run(s, body, env):
         for st in body:
             getattr(s, 's_' + type(st).__name__)(st, env)
+
+    def s_FunctionDef(s, n, env):
+        if n.decorator_list:
+            raise Unsupported('decorated nested function')
+        env[n.name] = LocalFn(n, env)
+
+    def e_Lambda(s, n, env):
+        return LocalFn(n, env)
 
     def s_Expr(s, n, env):
         if isinstance(n.value, ast.Constant):
@@ -758,12 +780,18 @@ class Interp:
             if c is not None:
                 return c(s, *args, **kw)
         fn = front.func(modkey, qual)
-        env = {'__globals__': s.globals_of(modkey)}
+        s.cur_fn.append((modkey, qual))
+        try:
+            return s.invoke(fn, qual, args, kw, {'__globals__': s.globals_of(modkey)}, {'__globals__': s.globals_of(modkey)})
+        finally:
+            s.cur_fn.pop()
+
+    def invoke(s, fn, qual, args, kw, env, defenv):
         a = fn.args
         params = [p.arg for p in a.args]
         defaults = a.defaults
         for p, dv in zip(params[len(params) - len(defaults):], defaults):
-            env[p] = s.ev(dv, {'__globals__': s.globals_of(modkey)})
+            env[p] = s.ev(dv, defenv)
         if len(args) > len(params):
             if a.vararg is None:
                 raise Raised('TypeError', '%s() takes %d positional arguments but %d were given'
@@ -776,6 +804,8 @@ class Interp:
             env[p] = v
         for k, v in kw.items():
             if k not in params:
+                if k in [q.arg for q in a.kwonlyargs]:
+                    continue
                 if a.kwarg is None:
                     raise Raised('TypeError', 'unexpected keyword ' + k)
                 continue
@@ -783,15 +813,23 @@ class Interp:
         for p in params:
             if p not in env:
                 raise Raised('TypeError', '%s() missing argument %s' % (qual, p))
+        if a.kwonlyargs:
+            for p, dv in zip(a.kwonlyargs, a.kw_defaults):
+                if p.arg in kw:
+                    env[p.arg] = kw[p.arg]
+                elif dv is not None:
+                    env[p.arg] = s.ev(dv, defenv)
+                else:
+                    raise Raised('TypeError', '%s() missing keyword-only argument %s' % (qual, p.arg))
         s.depth += 1
-        s.cur_fn.append((modkey, qual))
         try:
+            if isinstance(fn, ast.Lambda):
+                return s.ev(fn.body, env)
             s.run(front.strip_doc(fn), env)
         except Ret as r:
             return r.v
         finally:
             s.depth -= 1
-            s.cur_fn.pop()
         return None
 
 
